@@ -28,6 +28,11 @@ func (ty Type) String() string {
 	return fmt.Sprintf("Unknown(%02X)", uint8(ty))
 }
 
+// typeInvalid is what the text readers report for an element whose type
+// attribute is not one of the ten TTLV types. It matches no valid type, so every
+// typed accessor rejects the element with an encoding error.
+const typeInvalid Type = 0xFF
+
 // typeFromName returns the type for the given normalized name string.
 // It returns (0, false) if the name is not valid, otherwise it
 // returns the type and true.
